@@ -167,6 +167,15 @@ def build_goto(run, ob, odir):
         raise RuntimeError("cannot list goto functions:\n" + (r["out"] + r["err"])[-2000:])
     trap = sorted(set(nobody) - set(ob.get("allow_nobody", [])) - BUILTIN_OK)
     ob["_trapped"] = trap
+    allowed = sorted(set(nobody) & set(ob.get("allow_nobody", [])))
+    if allowed:
+        # explicitly allowed body-less callees (libm): result arbitrary, no side effects
+        gb1 = os.path.join(odir, "all1.gb")
+        rx = "^(" + "|".join(re.escape(t) for t in allowed) + ")$"
+        r = sh(["goto-instrument", "--generate-function-body", rx, "--generate-function-body-options", "nondet-return", allgb, gb1], timeout=300)
+        if r["rc"] != 0:
+            raise RuntimeError("goto-instrument generate-function-body (allowed) failed:\n" + (r["err"] + r["out"])[-3000:])
+        allgb = gb1
     if trap:
         gb2 = os.path.join(odir, "all2.gb")
         rx = "^(" + "|".join(re.escape(t) for t in trap) + ")$"
@@ -452,6 +461,9 @@ def run_obligation(run, ob):
         rec["trapped_bodyless"] = ob.get("_trapped", [])
         if os.environ.get("VERIF_LINT"):
             build_native(run, ob, odir)      # development aid: the native replay build must link (catches duplicate definitions goto-cc tolerates)
+            if os.environ.get("VERIF_LINT") == "only":
+                rec["status"] = "pass"; rec["notes"].append("lint only: not solved")
+                return rec
         if ob.get("unwind_fn"):
             ob["_unwind_fn_expanded"] = expand_unwind_fn(gb, ob["unwind_fn"])
         win, allr = run_cbmc_portfolio(ob, gb)
@@ -577,6 +589,8 @@ def run_property(prop, tier, obligations, meta):
     kfs = [k for k in load_known_findings() if k.get("property") == prop and k.get("status") == "open"]
     obs = []
     for ob in obligations:
+        if ob.get("tier") == "experimental" and not os.environ.get("VERIF_EXPERIMENTAL"):
+            continue            # harnesses that exist but do not finish inside any budget yet (not part of any claim)
         if tier == "quick" and ob.get("tier", "quick") != "quick":
             continue
         if tier == "thorough" and ob.get("quick_only"):
